@@ -408,9 +408,9 @@ Proof.
   rewrite andb_true_iff. intros [H1 H2]. rewrite roundtrip_id by exact H1. rewrite IH by exact H2. reflexivity.
 Qed.
 
-Theorem model_meets_spec i : wf i -> spec_okb i (model i) = true.
+Theorem model_meets_spec_base i : wf_base i -> spec_okb i (model i) = true.
 Proof.
-  unfold wf, wfb. rewrite andb_true_iff, forallb_forall. intros [Hs Hr].
+  unfold wf_base, wf_baseb. rewrite andb_true_iff, forallb_forall. intros [Hs Hr].
   unfold spec_okb, model. simpl. apply andb_true_iff. split.
   - apply run_ok.
     + apply inv_init.
@@ -611,10 +611,10 @@ Proof.
 Qed.
 
 Lemma nth_error_model_step i k so :
-  nth_error (o_steps (model i)) k = Some so -> wf i ->
+  nth_error (o_steps (model i)) k = Some so -> wf_base i ->
   forall o, nth_error (ops i) k = Some o -> Step_spec i (firstn k (ops i)) o so.
 Proof.
-  intros Hso Hwf o Ho. pose proof (spec_okb_sound i (model i) (model_meets_spec i Hwf)) as (_ & H & _).
+  intros Hso Hwf o Ho. pose proof (spec_okb_sound i (model i) (model_meets_spec_base i Hwf)) as (_ & H & _).
   exact (H k o so Ho Hso).
 Qed.
 
@@ -633,7 +633,7 @@ Proof.
 Qed.
 
 (* no hypothesis on the rule set: keys may be re-mapped, sinks may serve several rules *)
-Theorem one_sink i : wf i -> forall k via e so,
+Theorem one_sink_base i : wf_base i -> forall k via e so,
   nth_error (ops i) k = Some (Status via e) -> nth_error (o_steps (model i)) k = Some so ->
   let past := firstn k (ops i) in
   let e0 := pushed via e in
@@ -745,7 +745,7 @@ Proof.
 Qed.
 
 (* any rule set, any history: one startTestRun / stopTestRun per registration *)
-Theorem start_stop_count i : wf i -> forall k o so s,
+Theorem start_stop_count i : wf_base i -> forall k o so s,
   nth_error (ops i) k = Some o -> nth_error (o_steps (model i)) k = Some so -> s < n_sinks i ->
   let past := firstn k (ops i) in
   filter is_start_stop (nth s (s_new so) []) =
@@ -775,7 +775,7 @@ Proof.
 Qed.
 
 (* a sink asked to receive start/stop at most once - whatever rules it serves, re-mapped or not *)
-Theorem start_stop i : wf i -> forall k o so s, reg_once i s ->
+Theorem start_stop_once i : wf_base i -> forall k o so s, reg_once i s ->
   nth_error (ops i) k = Some o -> nth_error (o_steps (model i)) k = Some so -> s < n_sinks i ->
   let past := firstn k (ops i) in
   filter is_start_stop (nth s (s_new so) []) =
@@ -1012,7 +1012,7 @@ Qed.
 Lemma count_le1_split s (a b : list sink) : count s (a ++ b) <= 1 -> count s a = 1 -> count s b = 0.
 Proof. rewrite count_app. lia. Qed.
 
-Theorem start_stop_log i : wf i -> forall s, reg_once i s -> s < n_sinks i ->
+Theorem start_stop_log_once i : wf_base i -> forall s, reg_once i s -> s < n_sinks i ->
   let log := ss_log s (o_steps (model i)) in
   (* never registered for start/stop: neither is ever received *)
   (count s (registered i (ops i)) = 0 -> log = [])
@@ -1025,7 +1025,7 @@ Proof.
   intros Hwf s Hc Hs log. unfold reg_once in Hc.
   assert (Hlog : log = ss_expected i s [] (ops i)).
   { unfold log. apply ss_log_expected; [exact Hs | | exact Hc].
-    pose proof (model_meets_spec i Hwf) as H. unfold spec_okb in H. apply andb_true_iff in H as [H _]. exact H. }
+    pose proof (model_meets_spec_base i Hwf) as H. unfold spec_okb in H. apply andb_true_iff in H as [H _]. exact H. }
   rewrite Hlog. clear Hlog log. split; [|split].
   - intro H0. apply ss_expected_unregistered. exact H0.
   - intros Hf Hss. apply ss_expected_registered.
@@ -1107,3 +1107,39 @@ Proof.
     rewrite firstn_exact, skipn_exact. unfold to_obs at 2. simpl. rewrite per_sink_nil. reflexivity.
   - rewrite !flat_map_app. reflexivity.
 Qed.
+
+(* ---------- wf: the base conditions + every sink registered for start/stop at most once ---------- *)
+Lemma wf_is_base i : wf i -> wf_base i.
+Proof. unfold wf, wfb, wf_base. rewrite andb_true_iff. intros [H _]. exact H. Qed.
+
+Theorem wf_once i : wf i -> forall s, reg_once i s.
+Proof.
+  unfold wf, wfb. rewrite andb_true_iff. intros [_ H] s. apply (nodupb_NoDup _ Nat.eqb_eq) in H.
+  unfold reg_once, count. apply (NoDup_count_occ Nat.eq_dec). exact H.
+Qed.
+
+Theorem model_meets_spec i : wf i -> spec_okb i (model i) = true.
+Proof. intro H. apply model_meets_spec_base. apply wf_is_base. exact H. Qed.
+
+Definition one_sink i (H : wf i) := one_sink_base i (wf_is_base i H).
+
+Theorem start_stop i : wf i -> forall k o so s,
+  nth_error (ops i) k = Some o -> nth_error (o_steps (model i)) k = Some so -> s < n_sinks i ->
+  let past := firstn k (ops i) in
+  filter is_start_stop (nth s (s_new so) []) =
+    match o with
+    | Start => if memb s (registered i past) then [StartRun] else []
+    | Stop => if memb s (registered i past) then [StopRun] else []
+    | AddPrefix s' _ _ ss | AddId s' _ ss => if Nat.eqb s' s && ss && in_run past then [StartRun] else []
+    | Status _ _ => []
+    | AddRej _ _ _ => []
+    end.
+Proof. intros H k o so s. exact (start_stop_once i (wf_is_base i H) k o so s (wf_once i H s)). Qed.
+
+Theorem start_stop_log i : wf i -> forall s, s < n_sinks i ->
+  let log := ss_log s (o_steps (model i)) in
+  (count s (registered i (ops i)) = 0 -> log = [])
+  /\ (fb i = Some s -> fb_ss i = true -> log = flat_map ss_of_op (ops i))
+  /\ (forall k o, nth_error (ops i) k = Some o -> In s (registration o) ->
+        log = (if in_run (firstn k (ops i)) then [StartRun] else []) ++ flat_map ss_of_op (skipn (S k) (ops i))).
+Proof. intros H s. exact (start_stop_log_once i (wf_is_base i H) s (wf_once i H s)). Qed.
